@@ -99,6 +99,8 @@ class State:
 		return s
 
 	def assume(self, t):
+		if isinstance(t, SV):
+			t = truth(t)
 		if t is True:
 			return
 		if t is False:
@@ -112,8 +114,9 @@ class State:
 
 
 class Obligation:
-	def __init__(self, name, hyps, goal, meta=None):
+	def __init__(self, name, hyps, goal, meta=None, entry=None):
 		self.name, self.hyps, self.goal, self.meta = name, hyps, goal, meta or {}
+		self.entry = entry   # (entry_env, entry_heap, function label) for counterexample extraction
 
 
 class _NodeIndex:
@@ -241,6 +244,7 @@ class Engine:
 		self.assumptions_used = set()
 		self.specns = {}
 		self.class_of_kind = {}
+		self.axioms_used = set()
 
 	def isinstance(self, st, v, T):
 		"""isinstance(v, T) for the modelled classes: decided from the value's representation."""
@@ -262,7 +266,7 @@ class Engine:
 			self.obligations.append(Obligation(name, None, True, meta))
 			return
 		g = z3.BoolVal(False) if goal is False else goal
-		self.obligations.append(Obligation(name, list(st.pc), g, meta))
+		self.obligations.append(Obligation(name, list(st.pc), g, meta, entry=(st.entry_env, st.entry_heap, self.top_label)))
 		st.assume(g)
 
 	def feasible(self, st, extra=None):
@@ -280,6 +284,8 @@ class Engine:
 
 	def branch(self, st, cond):
 		"""Yields (state, bool) for the feasible outcomes of cond."""
+		if isinstance(cond, SV):
+			cond = truth(cond)
 		cond = simp(cond) if not isinstance(cond, bool) else cond
 		if isinstance(cond, bool):
 			yield st, cond
@@ -306,6 +312,7 @@ class Engine:
 			raise Unsupported(f'no contract for {qualname}')
 		fi = self.repo.funcinfo(qualname)
 		self.cur_label = self.label_of(qualname, inst_name)
+		self.top_label = self.cur_label
 		self.cur_contract = c
 		self.cur_finfo = fi
 		self.nodeidx = _NodeIndex(fi.node)
@@ -338,7 +345,8 @@ class Engine:
 		st.entry_heap = dict(st.heap)
 		if fi.is_generator:
 			st.ghosts['Y'] = SSeq.empty(c.yields.desc if isinstance(c.yields, TypeSpec) else c.yields)
-		nreq = len(st.pc)
+		for ax in c.axioms:
+			st.assume(SPEC.AXIOMS[ax]())
 		for i, r in enumerate(c.requires):
 			st.assume(bool_term(self.pure(r, st, entry=True)))
 		for lm in c.lemmas:
@@ -1026,13 +1034,30 @@ class Engine:
 			try:
 				return mod.const(name)
 			except Unsupported:
-				return ExtRef(f'{mod.qualname}.{name}')
+				return self.module_const(st, mod, name)
 		if name in EXC_PARENT:
 			return ExcClass(name)
 		return ExtRef(f'builtins.{name}')
 
 	def e_Name(self, node, st):
 		yield st, self.lookup(node.id, st)
+
+	def module_const(self, st, mod, name):
+		"""A module-level constant defined by a non-literal expression: evaluated by this interpreter
+		(in the current heap), it must have exactly one, non-raising value."""
+		saved_fi, saved_env = self.cur_finfo, st.env
+		self.cur_finfo = FuncInfo(f'{mod.qualname}.<module>', ast.parse('def _m(): pass').body[0], mod)
+		saved_idx = self.nodeidx
+		self.nodeidx = _NodeIndex(mod.const_nodes[name])
+		st.env = {}
+		try:
+			rs = list(self.ev(mod.const_nodes[name], st))
+		finally:
+			self.cur_finfo, self.nodeidx = saved_fi, saved_idx
+			st.env = saved_env
+		if len(rs) != 1 or isinstance(rs[0][1], Raised) or rs[0][0] is not st:
+			raise Unsupported(f'module constant {mod.qualname}.{name} has no single value')
+		return rs[0][1]
 
 	def e_Tuple(self, node, st):
 		for s2, vs in self.ev_list(node.elts, st):
@@ -1633,7 +1658,25 @@ class Engine:
 			if p.annotation is None or not isinstance(p.annotation, ast.Constant):
 				continue
 			tname = p.annotation.value
-			if tname.endswith('[:]') or tname.endswith('*'):
+			if tname.endswith('[:]'):
+				v = bound[p.arg]
+				vv = st.deref(v)
+				if not (isinstance(vv, (SArr, SSeq)) and getattr(vv, 'kind', 'ndarray') in ('bytes', 'bytearray', 'memview', 'ndarray', 'f32view')):
+					yield st, Raised('TypeError')
+					return
+				base = tname[:-3].strip()
+				cm = fi.module.cymod
+				if isinstance(vv, SArr) and vv.kind == 'ndarray' and cm is not None:
+					allowed = cm.fused.get(base, [base])
+					names = set()
+					for a_ in allowed:
+						t_ = self._resolve_ctype_of(fi, a_)
+						names.add((t_.kind, t_.signed, t_.bits))
+					if vv.elem is None or (vv.elem.kind, vv.elem.signed, vv.elem.bits) not in names:
+						yield st, Raised('TypeError')   # no matching buffer dtype / fused specialisation
+						return
+				continue
+			if tname.endswith('*'):
 				continue
 			ct = self._resolve_ctype_of(fi, tname)
 			if ct.kind != 'int':
@@ -1706,6 +1749,8 @@ class Engine:
 		conds = []
 		for exc, cl in c.raises.items():
 			cond = pe.eval_clause(cl)
+			if isinstance(cond, SV):
+				cond = truth(cond)
 			conds.append(cond)
 			for s2, b in self.branch(st, cond):
 				if b:
@@ -1714,7 +1759,7 @@ class Engine:
 			s2 = st.fork()
 			yield s2, Raised(exc)
 		for cond in conds:
-			st.assume(bool_term(mk_not(cond)) if not isinstance(mk_not(cond), bool) else mk_not(cond))
+			st.assume(mk_not(cond))
 		if not self.feasible(st):
 			return
 		# havoc written parameters
@@ -1738,7 +1783,12 @@ class Engine:
 			result = TSeq(T).fresh('Y')
 			st.assume(result.length >= 0)
 		elif c.returns is not None:
-			result = c.returns.make('ret', st, self) if isinstance(c.returns, TypeSpec) else c.returns
+			if isinstance(c.returns, TypeSpec):
+				result = c.returns.make('ret', st, self)
+			elif callable(c.returns):
+				result = c.returns(self, st, callee_env)
+			else:
+				result = c.returns
 		elif fi is not None and fi.cython and fi.node.returns is not None:
 			ct = self._resolve_ctype_of(fi, ast.literal_eval(fi.node.returns))
 			if ct.kind == 'float':
@@ -1748,7 +1798,7 @@ class Engine:
 				st.assume(z3.And(result.term >= ct.lo, result.term <= ct.hi))
 		pe2 = PureEval(self, st, env_override=callee_env, old_heap=entry_heap, extra={'result': result, 'Y': result})
 		for e in c.ensures:
-			st.assume(bool_term(pe2.eval_clause(e)))
+			st.assume(pe2.eval_clause(e))
 		yield st, result
 
 	def _resolve_ctype_of(self, fi, name):
